@@ -134,7 +134,26 @@ ANCHORS = ["ebuild/cpv.py::CPV.__init__", "ebuild/cpv.py::CPV.__hash__", "ebuild
            "ebuild/cpv.py::Revision", "ebuild/atom.py::atom.__cmp__",
            "ebuild/atom.py::atom.__attr_comparison__"]
 ATOM_OPS = ("", "<", "<=", "=", "=*", "~", ">=", ">")
-USE_POOL = ("x", "y", "-z", "x?", "!y?", "z=", "x(+)", "-y(-)", "w", "!w=")
+USE_POOL = ("x", "y", "-z", "x?", "!y?", "z=", "x(+)", "-y(-)", "w", "!w=", "x1", "x01", "-x10", "x9")
+# spellings with leading-zero digit runs and mixed alphanumerics: text equality, text order and any
+# "natural"/numeric reading of the same attribute disagree exactly on these
+SLOT_POOL = ("0", "00", "1", "01", "9", "10", "1.2", "1.02", "a1", "a01", "2.1", "2a")
+SUBSLOT_POOL = ("1", "01", "2", "a", "a1", "a01", "1.2", "1.02", "10", "9")
+REPO_POOL = ("gentoo", "other", "repo1", "repo01", "r9", "r10")
+FLAG_POOL = ("x", "x1", "x01", "x9", "x10", "y")
+
+
+def zero_respell(rng, s):
+    """respell one digit run of s with a leading zero added or removed (text differs, numeric reading equal);
+    None when s has no digit run"""
+    import re
+    runs = list(re.finditer(r"\d+", s))
+    if not runs:
+        return None
+    m = rng.choice(runs)
+    d = m.group(0)
+    nd = d[1:] if (d[0] == "0" and len(d) > 1 and rng.random() < 0.5) else "0" + d
+    return s[:m.start()] + nd + s[m.end():]
 
 
 # ---------------------------------------------------------------- atoms as field records
@@ -188,9 +207,9 @@ def gen_atom(rng) -> A:
     slot = subslot = slotop = None
     x = rng.random()
     if x < 0.35:
-        slot = rng.choice(("0", "1", "2.1"))
+        slot = rng.choice(SLOT_POOL)
         if rng.random() < 0.5:
-            subslot = rng.choice(("1", "2", "a"))
+            subslot = rng.choice(SUBSLOT_POOL)
         if rng.random() < 0.3:
             slotop = "="
     elif x < 0.45:
@@ -200,13 +219,13 @@ def gen_atom(rng) -> A:
         use = tuple(rng.sample(USE_POOL, rng.choice((1, 2, 2, 3))))
     return A(blocks=blocks, bstrong=blocks and rng.random() < 0.5, op=op, cat=rng.choice(("a", "dev-x", "a")),
              pkg=rng.choice(("b", "b-c", "b", "b1")), ver=ver, rev=rev, slot=slot, subslot=subslot, slotop=slotop,
-             repo=rng.choice((None, None, None, "gentoo", "other")), use=use,
+             repo=rng.choice((None, None, None) + REPO_POOL), use=use,
              negate=bool(op) and rng.random() < 0.15)
 
 
 def respell_atom(rng, a: A) -> A:
     """an equivalent spelling (under the statement's reading) or a one-attribute change of a"""
-    k = rng.randrange(14)
+    k = rng.randrange(18)
     if k == 0 and a.blocks:
         return a.copy(bstrong=not a.bstrong)
     if k == 1 and a.use and len(a.use) > 1:
@@ -219,15 +238,29 @@ def respell_atom(rng, a: A) -> A:
         return a.copy(rev=rng.choice((None, "0", "00")) if a.rev in (None, "0", "00") else
                       rng.choice((a.rev, "0" + a.rev, str(int(a.rev)))))
     if k == 4 and a.slot is not None:
-        return a.copy(subslot=rng.choice((None, "1", "2", "a")))
+        return a.copy(subslot=rng.choice((None,) + SUBSLOT_POOL))
     if k == 5 and a.slot is not None:
         return a.copy(slotop=None if a.slotop else "=")
     if k == 6:
         if a.slot is None:
             return a.copy(slot=None, subslot=None, slotop=rng.choice((None, "*", "=")))
-        return a.copy(slot=rng.choice(("0", "1", "2.1")))
+        return a.copy(slot=rng.choice(SLOT_POOL))
     if k == 7:
-        return a.copy(repo=rng.choice((None, "gentoo", "other")))
+        return a.copy(repo=rng.choice((None,) + REPO_POOL))
+    # the same attribute respelled with a leading zero in one digit run (slot, sub-slot, repo id, USE flag)
+    if k == 14 and a.slot is not None and zero_respell(rng, a.slot):
+        return a.copy(slot=zero_respell(rng, a.slot))
+    if k == 15 and a.subslot is not None and zero_respell(rng, a.subslot):
+        return a.copy(subslot=zero_respell(rng, a.subslot))
+    if k == 16 and a.repo is not None and zero_respell(rng, a.repo):
+        return a.copy(repo=zero_respell(rng, a.repo))
+    if k == 17 and a.use:
+        u = list(a.use)
+        i = rng.randrange(len(u))
+        z = zero_respell(rng, u[i])
+        if z and z not in u:
+            u[i] = z
+            return a.copy(use=tuple(u))
     if k == 8:
         if a.use is None:
             return a.copy(use=(rng.choice(USE_POOL),))
@@ -391,30 +424,41 @@ def main(chk: Check):
              "reordered USE deps, ! vs !!) or a change of exactly one attribute (slot, sub-slot, slot operator, "
              "repository, one USE dep, operator, negate_vers, blocker), plus independent random pairs; every "
              "pair is evaluated in both orders; non-trivial = the two texts differ")
-    try:
-        tables.regenerate(sys.modules[__name__])
-        tables.regenerate(c01)
-    except TableError as e:
-        chk.violation("table", {"what": "atom.__attr_comparison__ / atom.__cmp__ / the tables of C01 no longer "
-                                        "have the shape the model assumes (fail-closed extraction)",
-                                "error": str(e)}, no_input=True)
+    table_errors = []
+    for mod in (sys.modules[__name__], c01):
+        try:
+            tables.regenerate(mod)
+        except TableError as e:
+            table_errors.append(str(e))
     ok = chk.build(["C02/Prop_C02.vo"])
     if ok:
         chk.check_assumptions("C02/Prop_C02.v")
     chk.lint(["C02", "gen/Tables_C02.v"])
     chk.check_fingerprint(ANCHORS)
+    if table_errors or not ok:
+        # the tie to the source is broken: the theorems no longer speak about this code.  Keep going
+        # with every stream at the thorough budget: the direct oracle on the implementation
+        # (trichotomy / six-operator consistency / eq => hash) searches for a concrete failing pair,
+        # and the model (with the last good tables) localises the behavioural change.
+        chk.fingerprint_changed = True
+        chk.note("table extraction or proof build failed; budgets escalated to search for a failing input")
 
     prop_bad = []
+    seen_bad = set()
 
     def report(kind, clause, inp, cid):
         if cid is not None and chk.known_finding(cid, inp):
             return
+        key = (kind, str(inp.get("a")), str(inp.get("b")))
+        if key in seen_bad:        # one violation per pair (its first failing clause)
+            return
+        seen_bad.add(key)
         if len(prop_bad) < 100:
             prop_bad.append({"what": f"{kind}: clause '{clause}' of C02 fails outside the known classes", "input": inp})
 
     # ------------------------------------------------------------ CPV pairs
     cpv_cases, key_cases = [], []
-    for i in range(chk.n(350, 4000)):
+    for i in range(chk.n(320, 4000)):
         v1 = c01.gen_version(rng)
         x = rng.random()
         v2 = v1 if x < 0.1 else (respell_version(rng, v1) if x < 0.5 else
@@ -463,7 +507,26 @@ def main(chk: Check):
         (A(blocks=False, bstrong=False, op="=", cat="a", pkg="b", ver=c01.parse_text("1.0"), negate=False), "rev", "0"),
     ]
     pairs = [(a, a.copy(**{f: v})) for a, f, v in witness]
-    for _ in range(chk.n(400, 5000)):
+    # atoms differing in EXACTLY one attribute, over all unordered pairs of its spelling pool
+    # (leading-zero digit runs, mixed alphanumerics): slot, sub-slot, repo id, one USE flag
+    base = A(blocks=False, bstrong=False, op="", cat="a", pkg="b", negate=False)
+    matrix_pairs = []
+    for field, pool, extra in (("slot", SLOT_POOL, {}), ("subslot", SUBSLOT_POOL, {"slot": "0"}),
+                               ("repo", REPO_POOL, {}), ("use", tuple((f,) for f in FLAG_POOL), {}),
+                               ("use", tuple(("w", f) for f in FLAG_POOL), {"slot": "1"})):
+        for i in range(len(pool)):
+            for j in range(i + 1, len(pool)):
+                matrix_pairs.append((base.copy(**extra, **{field: pool[i]}), base.copy(**extra, **{field: pool[j]})))
+    if not (chk.thorough or chk.fingerprint_changed):
+        import re
+
+        def numeric_reading(a):
+            return re.sub(r"0*(\d+)", r"\1", a.text())
+        must = [p for p in matrix_pairs if numeric_reading(p[0]) == numeric_reading(p[1])]   # :0 vs :00, x1 vs x01 ...
+        rest = [p for p in matrix_pairs if numeric_reading(p[0]) != numeric_reading(p[1])]
+        matrix_pairs = must + rng.sample(rest, 60)
+    pairs += matrix_pairs
+    for _ in range(chk.n(340, 5000)):
         a = gen_atom(rng)
         x = rng.random()
         b = a.copy() if x < 0.05 else (respell_atom(rng, a) if x < 0.8 else gen_atom(rng))
@@ -509,10 +572,12 @@ def main(chk: Check):
         ("atomtext", "atomf", text_cases, ["mismatches run_atomtext cases"]),
     ]
     corr_bad, spec_bad = [], []
-    for name, ty, cs, evals in streams:
-        if not ok:
-            break
-        r = chk.coq_eval(name, IMPORTS, ty, cs, evals)
+    import concurrent.futures as cf
+    with cf.ThreadPoolExecutor(max_workers=4) as ex:   # the streams are independent: evaluate them side by side
+        futs = [ex.submit(chk.coq_eval, name, IMPORTS, ty, cs, evals) if ok else None
+                for name, ty, cs, evals in streams]
+    for (name, ty, cs, evals), fut in zip(streams, futs):
+        r = fut.result() if fut is not None else None
         if r is None:
             continue
         corr_bad += [(name, cs[i]) for i in r[0][:3]]
@@ -524,6 +589,11 @@ def main(chk: Check):
         for name, c in spec_bad[:3]:
             chk.violation("property", {"what": f"Spec_C02 rejects the implementation's result on stream '{name}' "
                                                "outside the Coq known classes", "input": c[0], "implementation": c[1]})
+    for e in table_errors:
+        chk.violation("table", {"what": "atom.__attr_comparison__ / atom.__cmp__ / the tables of C01 no longer have "
+                                        "the shape the model assumes (fail-closed extraction); the theorems of "
+                                        "Prop_C02 no longer speak about this code", "error": e},
+                      no_input=not (prop_bad or spec_bad))
     for name, c in corr_bad[:4]:
         chk.violation("correspondence",
                       {"what": f"implementation and Model_C02 disagree on stream '{name}' (the theorems of Prop_C02 "
